@@ -46,6 +46,11 @@ HAS = {c: z3.Function('has_' + c, I, Bb) for c in CRIT + ('dt_adapt',)}
 MAXF = {c: z3.Function('max_' + c, I, Rr) for c in CRIT}
 MIN_ADAPT = z3.Function('min_dt_adapt', I, Rr)
 HMIN = z3.Function('h_minimum_of', I, Rr)
+# the number of real particles of array j (pa.<prop> and pa.get(<prop>) hold
+# these only) and the minimum its h array has CACHED: equal to the smallest
+# smoothing length only right after update_min_max()
+NREAL = z3.Function('nreal', I, I)
+CACHED_HMIN = z3.Function('cached_h_minimum_of', I, Rr)
 LEN = z3.Int('n_arrays')
 
 ASSUMPTIONS = [
@@ -87,15 +92,31 @@ class PropSet(object):
         return HAS[name](self.j)
 
 
+def _h_array(j):
+    """the h carray of array j: `minimum` is the cached value until
+    update_min_max() has been called on THIS object"""
+    h = SymObject(None, dict(minimum=CACHED_HMIN(j)), 'h')
+
+    def upd(ex, st, a, k, n):
+        h.attrs['minimum'] = HMIN(j)
+        for o in st.env.values():
+            if isinstance(o, SymObject) and o.name == 'h' and \
+                    S.same(o.attrs.get('minimum'), CACHED_HMIN(j)):
+                o.attrs['minimum'] = HMIN(j)
+    h.attrs['update_min_max'] = Native(upd)
+    return h
+
+
 def array_at(j):
     j = S.to_z3(j)
     pa = SymObject(None, {}, 'pa')
     pa.attrs.update(
         properties=PropSet(j), gpu=None,
         get=Native(lambda ex, st, a, k, n: AbsArr(j, a[0])),
-        get_carray=Native(lambda ex, st, a, k, n: SymObject(
-            None, dict(minimum=HMIN(j)), 'h')),
-        get_number_of_particles=Native(lambda ex, st, a, k, n: N(j)),
+        get_carray=Native(lambda ex, st, a, k, n: _h_array(j)),
+        get_number_of_particles=Native(
+            lambda ex, st, a, k, n: NREAL(j) if (
+                k.get('real') is True or (a and a[0] is True)) else N(j)),
         dt_adapt=AbsArr(j, 'dt_adapt'))
     return pa
 
@@ -113,6 +134,12 @@ def ext_min(ex, st, args, kwargs, node):
     if len(args) == 1 and isinstance(args[0], AbsArr):
         if args[0].name != 'dt_adapt':
             raise VCError('np.min of %s' % args[0].name)
+        # np.min of an empty array raises: the array read holds the REAL
+        # particles, so there must be one
+        ex.obligations.append(Obligation(
+            'np_min.of_a_non_empty_array', list(st.pc),
+            NREAL(args[0].j) > 0, MOD, kind='pre',
+            extra=dict(backends=['z3'])))
         return MIN_ADAPT(args[0].j)
     r = args[0]
     for x in args[1:]:
@@ -130,7 +157,8 @@ def ext_len(ex, st, args, kwargs, node):
 def world():
     """Global facts about the ghost functions."""
     j = z3.Int('jw')
-    facts = [LEN >= 0, z3.ForAll([j], N(j) >= 0)]
+    facts = [LEN >= 0, z3.ForAll([j], N(j) >= 0),
+             z3.ForAll([j], z3.And(NREAL(j) >= 0, NREAL(j) <= N(j)))]
     for c in CRIT:
         facts.append(z3.ForAll([j], MAXF[c](j) >= 0))
     facts.append(z3.ForAll([j], z3.Implies(N(j) > 0, HMIN(j) > 0)))
@@ -312,8 +340,52 @@ def replay_cases(pick=None):
                             expected=want,
                             how='real Integrator.compute_time_step on stub '
                                 'arrays')
+        # histories the stub arrays cannot show: compiled particle arrays
+        try:
+            r = native.run_venv(REPLAY_REAL, dict(root=REPO_ROOT))
+        except Exception as e:
+            return dict(reproduced=False, note=str(e)[:300])
+        if r['bad']:
+            return dict(reproduced=True, how='real Integrator on compiled '
+                        'particle arrays', **r['bad'])
         return dict(reproduced=False)
     return rp
+
+
+REPLAY_REAL = r'''
+import json, sys, importlib.util, math
+import numpy as np
+d = json.load(sys.stdin)
+spec = importlib.util.spec_from_file_location('pysph.sph.integrator', d['root'] + '/pysph/sph/integrator.py')
+mod = importlib.util.module_from_spec(spec); mod.__package__ = 'pysph.sph'; spec.loader.exec_module(mod)
+from pysph.base.utils import get_particle_array
+class AE: pass
+def integ(arrays):
+    ae = AE(); ae.particle_arrays = arrays
+    it = mod.Integrator.__new__(mod.Integrator)
+    it.acceleration_evals = [ae]; it._has_dt_adapt = None; it.fixed_h = False; it.h_minimum = None
+    return it
+bad = None
+# the smoothing lengths changed after the minimum was last cached
+pa = get_particle_array(name='f', x=[0.0, 1.0], h=[1.0, 1.0], dt_cfl=[1.0, 1.0])
+pa.update_min_max()
+pa.h[:] = [0.1, 0.5]
+r = integ([pa]).compute_time_step(0.5, 1.0)
+if r is None or abs(r - 0.1) > 1e-12:
+    bad = dict(case='h = [1, 1] cached by update_min_max(), then h = [0.1, 0.5]; dt_cfl = [1, 1], cfl = 1', observed=None if r is None else float(r), expected=0.1)
+if bad is None:
+    # an array that declares dt_adapt but holds only ghost particles right now
+    g = get_particle_array(name='g', x=[0.0, 1.0], h=[0.1, 0.1], dt_adapt=[0.5, 0.5])
+    g.tag[:] = 2; g.align_particles()
+    f = get_particle_array(name='f', x=[0.0], h=[0.1], dt_adapt=[0.001])
+    try:
+        r = integ([g, f]).compute_time_step(0.5, 1.0)
+        if r is None or abs(r - 0.001) > 1e-15:
+            bad = dict(case='array g: 2 ghost particles with dt_adapt 0.5; array f: 1 real particle with dt_adapt 0.001', observed=None if r is None else float(r), expected=0.001)
+    except Exception as e:
+        bad = dict(case='array g: 2 ghost particles with dt_adapt 0.5; array f: 1 real particle with dt_adapt 0.001', raised='%s: %s' % (type(e).__name__, e), expected=0.001)
+print(json.dumps(dict(bad=bad)))
+'''
 
 
 # --------------------------------------------------------------------- tasks
@@ -346,7 +418,8 @@ def run_task(task, ctx):
 
 def _collect(ex, outs, post, W):
     obs = [o for o in ex.obligations if o.kind in ('inv-entry', 'inv-step',
-                                                   'index', 'unbound')]
+                                                   'index', 'unbound',
+                                                   'pre')]
     for o in obs:
         o.extra = dict(o.extra or {}, backends=['z3'])
     for i, o in enumerate(outs):
@@ -384,7 +457,8 @@ def task_factors(ctx, repo, m):
 
 def task_explicit(ctx, repo, m):
     fn = m.methods('Integrator')['_get_explicit_dt_adapt']
-    used = lambda j: z3.And(HAS['dt_adapt'](j), N(j) > 0)
+    # "the minimum of dt_adapt over the REAL particles of all arrays"
+    used = lambda j: z3.And(HAS['dt_adapt'](j), NREAL(j) > 0)
 
     def facts(st, k):
         x = st.env['dt_min'] if st is not None else S.INF
